@@ -168,17 +168,26 @@ def infosAfterCopy (t : InfosTest) : Option (Option Ref × Option Ref × Option 
     | _ => none
   | _ => none
 
-/-- OPEN finding C15-copy-hands-over-infos-helper: `copy()` passes the helper object kept under `infos` (it has no `copy`) to the new
-object: the copy (cell 6) holds, under `infos`, the helper of the receiver — bound to the receiver (cell 2). Only because the getter's
-cache test is never true does `c.infos` ignore it and answer with a helper of its own (owner 6) -/
+/-- `sv.infos` (read), then each converting method: what the NEW object's `_data` holds under `infos` -/
+def infosAfter : List (Option Ref) :=
+  match getInfos .never h1 2 with
+  | (h, some _) =>
+    let entry (r : Res Nat) : Option Ref := match r with | (h', .ok n) => infosEntry h' n | _ => some .none
+    [ entry (copySV h 2), entry (copyForm h 2 "keplerian"), entry (copyFrame h 2 "ITRF"),
+      entry (let (h, p) := alloc h (.prop 0); asOrbit h 2 p), entry (transformObj h 2 (.reg "ITRF" 0)), entry (stdDeepcopy h 2) ]
+  | _ => []
+
+/-- REGRESSION witness (was the counter-witness of open finding C15-copy-hands-over-infos-helper, fixed in /repo a12f060; then the copy
+held `.infos 2 3`, the helper of the receiver): after a read of `infos` on the receiver (which keeps its helper), the object returned by
+copy(), copy(form=), copy(frame=), as_orbit, Frame.transform and copy.deepcopy has no `infos` entry; its getter answers with its own -/
 theorem copy_hands_over_infos_entry :
-    infosAfterCopy .never = some (some (.infos 2 3), some (.infos 2 3), some 6) := by
+    infosAfterCopy .never = some (some (.infos 2 3), none, some 6) ∧ infosAfter = [none, none, none, none, none, none] := by
   decide +kernel
 
-/-- … with the test `"infos" not in self._data` the stale helper is what `c.infos` returns: period, kep, pericenter of the copy would be
-those of the original (owner 2) — the defect `infosTest_never` rules out -/
+/-- … and even the getter test `"infos" not in self._data` now finds nothing to hand out in a fresh copy (it remains excluded by
+`infosTest_never`: the copy would then keep a helper whose cached quantities go stale) -/
 theorem cached_infos_test_would_answer_with_the_original :
-    infosAfterCopy .inData = some (some (.infos 2 3), some (.infos 2 3), some 2) := by
+    infosAfterCopy .inData = some (some (.infos 2 3), none, some 6) := by
   decide +kernel
 
 /-! ### positive witnesses for the constructor / getter / failing-setter sites (each is a defect a maintainer could
